@@ -1,10 +1,9 @@
 /*@unit {
- 'kind': 'proof', 'mode': 'legacy',
+ 'kind': 'proof', 'mode': 'dfcc',
  'functions': ['print_i'],
  'clauses': 'd/i, u, o, x/X and the %p call of print_i: for every 64-bit value, every flag set (- + space # 0, upper case), every width >= 0 and every precision >= 0 or none: return value == ISO length == number of callback calls; each of the five output segments (left pad, sign/0x prefix, zeros, digits, right pad) has the length ISO C 7.21.6.1 prescribes and its j-th character (arbitrary segment and j) is the ISO one; digits are built inside buff[23] only (every access checked); no signed overflow',
  'params': {'CONV': ['CONV_D', 'CONV_U', 'CONV_O', 'CONV_X', 'CONV_P']},
  'include': ['igris/util'],
- 'solver': 'kissat',
  'unwind': 24,
  'complete_unwinding': 'digit loop (do..while (u)): at most 22 iterations (64-bit value, base 8); prefix loop: at most 2; strlen of the 0..2 character prefix literal (cbmc library model): at most 3; oracle loops: constant bound 22.  All unwound 24 times with unwinding assertions.  The four loops bounded by width/precision/len are closed by injected invariants.',
  'ghost_calls': ['iso_digit_char'],
@@ -33,13 +32,13 @@
                   '(g_kseg == 0 && g_kj < g_pos) ? g_got == 32 : g_got == g_g1'],
    'decreases': 'space_count'},
   {'file': 'igris/util/printf_impl.c', 'func': 'print_i', 'at': 'before', 'anchor': 'while (prefix_len--)',
-   'ghost': 'g_l0 = (g_seg == 0) ? g_pos : 0; g_seg = 1; g_pos = 0;'},
+   'ghost': 'g_l0 = (g_seg == 0) ? g_pos : 0; g_seg = G_PREFIX_SEG; g_pos = 0;'},
   {'file': 'igris/util/printf_impl.c', 'func': 'print_i', 'at': 'before', 'anchor': 'while (zero_count--)',
-   'ghost': 'g_l1 = g_pos; g_seg = 2; g_pos = 0; g_c3 = g_count; g_n3 = zero_count; g_g3 = g_got;'},
+   'ghost': 'g_l1 = (g_seg == 1) ? g_pos : 0; g_p3 = (g_seg == 2) ? g_pos : 0; g_seg = 2; g_pos = g_p3; g_c3 = g_count; g_n3 = zero_count; g_g3 = g_got;'},
   {'file': 'igris/util/printf_impl.c', 'func': 'print_i', 'loop': 3, 'expect': 'while (zero_count--)',
    'assigns': 'zero_count, g_count, g_pos, g_got',
    'invariants': ['0 <= zero_count && zero_count <= g_n3',
-                  'g_pos == g_n3 - zero_count && g_count == g_c3 + g_pos',
+                  'g_pos == g_p3 + (g_n3 - zero_count) && g_count == g_c3 + (g_n3 - zero_count)',
                   '(g_kseg == 2 && g_kj < g_pos) ? g_got == 48 : g_got == g_g3'],
    'decreases': 'zero_count'},
   {'file': 'igris/util/printf_impl.c', 'func': 'print_i', 'at': 'before', 'anchor': 'while (len--)',
@@ -77,6 +76,7 @@
 long long g_c1, g_n1, g_c3, g_n3, g_c4, g_n4, g_c5, g_n5; /* count / iterations at the start of a contracted loop */
 int g_g1, g_g3, g_g4, g_g5;                               /* recorded character at that point */
 const char *g_s4;                                         /* start of the digit text inside buff */
+long long g_p3;                                           /* characters already in segment 2 when the zero loop starts (octal '#' prefix) */
 long long g_l0, g_l1, g_l2, g_l3;                         /* lengths of the segments already finished */
 unsigned long long g_q;                                   /* reference recurrence: current quotient */
 int g_nd;                                                 /* digits of |v| per the oracle (least n >= 1 with |v| < base^n) */
@@ -92,6 +92,8 @@ struct iso_layout g_L;                                    /* the ISO layout, com
 #define G_LAYOUT_IS_ISO(pl, zc, ln, sc)                                                              \
     ((CONV == CONV_O ? (g_L.plen == 0 && (pl) + (zc) == g_L.zeros) : ((pl) == g_L.plen && (zc) == g_L.zeros)) && \
      (ln) == g_L.nbody && (sc) == g_L.lpad + g_L.rpad)
+/* segment label of the prefix loop: sign / 0x are segment 1; the "0" of '#' with o is the first leading zero */
+#define G_PREFIX_SEG (CONV == CONV_O ? 2 : 1)
 #define CONV_D 0
 #define CONV_U 1
 #define CONV_O 2
